@@ -12,7 +12,7 @@ on the bytes the server sent, for every segmentation and every fault map.
 -/
 import SshuttleModel.Props.C12
 import SshuttleModel.Props.C07
-import SshuttleModel.Lemmas.ClientMainLink
+import SshuttleModel.Lemmas.ClientMainTotal
 
 namespace Sshuttle.ClientMain
 open Sshuttle.ClientTrace
@@ -102,6 +102,47 @@ theorem C12_bad_handshake (sc : Script) (h : (Handshake.spec sc.cfg.hs.flatten).
       subst he; rfl
     · subst he; rfl
     · rcases h2 e he with h | h | h <;> subst h <;> rfl
+
+/-- **The converse: a genuine stream is never refused.**  With no boundary call made to raise and
+ssh alive at the first `poll()`, a stream that C07's recognition accepts — in any segmentation —
+makes the start-up succeed, and the bytes left for the tunnel are exactly those after the sync
+string.  (Together with `C12_startup_needs_sync`: the start-up succeeds *iff* the stream is
+genuine, under these two conditions.) -/
+theorem C12_startup_succeeds_on_sync (sc : Script) (hnf : ∀ n, sc.faults n = none)
+    (hp : sc.cfg.poll0 = none) (rest : Bytes)
+    (hs : Handshake.spec sc.cfg.hs.flatten = (true, rest)) :
+    ∃ w', startup sc (initWorld sc) = (.ok (), w') ∧ w'.reader.flatten = rest := by
+  rw [← Handshake.C07_handshake] at hs
+  cases hh : Handshake.handshake sc.cfg.hs with
+  | fatal g => rw [hh] at hs; simp [Handshake.Outcome.flat] at hs
+  | ok r3 =>
+    rw [hh] at hs
+    simp only [Handshake.Outcome.flat, Prod.mk.injEq, true_and] at hs
+    obtain ⟨init, w1, hm, _, hr⟩ := startupChecks_total hnf hp sc.cfg.hs r3 hh (initWorld sc) rfl
+    refine ⟨push (.hsOk init) w1, ?_, ?_⟩
+    · rw [startup_eq]
+      simp only [bind_apply, hm]
+      rfl
+    · simp only [push, hr, hs]
+
+/-- In the server's own terms (`server.py` writes `\0\0SSHUTTLE0001` and then frames; ssh may put
+NUL-free noise in front of either NUL): whatever follows the sync string — e.g. the encoded ROUTES
+frame — is what the tunnel's reader holds when `_main` goes on, cut anywhere. -/
+theorem C12_startup_leaves_the_frames (sc : Script) (hnf : ∀ n, sc.faults n = none)
+    (hp : sc.cfg.poll0 = none) (noise1 noise2 tail : Bytes)
+    (hn1 : Handshake.afterNul (noise1 ++ [0]) = some [])
+    (hn2 : Handshake.afterNul (noise2 ++ [0]) = some [])
+    (h : sc.cfg.hs.flatten = noise1 ++ [0] ++ noise2 ++ [0] ++ Handshake.expected ++ tail) :
+    ∃ w', startup sc (initWorld sc) = (.ok (), w') ∧ w'.reader.flatten = tail := by
+  apply C12_startup_succeeds_on_sync sc hnf hp
+  rw [← Handshake.C07_handshake]
+  exact Handshake.C07_handshake_accepts_sync noise1 noise2 tail sc.cfg.hs hn1 hn2 h
+
+/-- Non-vacuity: `demo` is fault-free, ssh is alive, and its stream is the sync string cut 6 + 8. -/
+example : (∀ n, demo.faults n = none) ∧ demo.cfg.poll0 = none ∧
+    Handshake.spec demo.cfg.hs.flatten = (true, []) := by
+  refine ⟨fun _ => rfl, rfl, ?_⟩
+  decide
 
 /-- Non-vacuity of `C12_bad_handshake`: a near miss of the version field (`SSHUTTLE0002`), cut
 inside the string, is a stream the hypothesis holds of … -/
